@@ -180,7 +180,8 @@ fn bnd_collect_rdh_seen() {
     assert!(unsafe { SENT_LINKS } == 1 && unsafe { LAST_LINK } == a[12], "[C14] the first header's link is reported");
     assert!(unsafe { SENT_FEES } == 1 && unsafe { LAST_FEE } == s_fee_id(&a), "[C14] the first header's FEE id is reported");
     sc.collect_rdh_seen_stats(&rb);
-    assert!(sc.stats.as_ref().unwrap().rdhs_seen == 2, "[C14] every visited header is counted once");
+    sc.stats.as_mut().unwrap().flush_stats();
+    assert!(unsafe { SENT_RDH_SEEN } == 2, "[C14] every visited header is counted once");
     assert!(unsafe { SENT_LINKS } == 1 + (b[12] != a[12]) as u32, "[C14] a link is reported exactly when it was not seen before, whatever the FEE id");
     assert!(unsafe { SENT_FEES } == 1 + (s_fee_id(&b) != s_fee_id(&a)) as u32, "[C14] a FEE id is reported exactly when it was not seen before, whatever the link");
     core::mem::forget(sc);
